@@ -38,7 +38,7 @@ class C19(Harness):
                    'name and seed, once with another seed, and a SquareWave; two instances',)
 
     def bounds(self, tier):
-        return {'micro_depth': 4 if tier == 'quick' else 5, 'macro_depth': 8 if tier == 'quick' else 10, 'times': '0..3 (never negative)'}
+        return {'micro_depth': 4 if tier == 'quick' else 5, 'macro_depth': 8 if tier == 'quick' else 10, 'times': '-1..3'}
 
     def configs(self, tier):
         return [{'slice': 'micro'}, {'slice': 'macro'}, {'slice': 'gseed'}]
@@ -94,12 +94,12 @@ class C19(Harness):
             # also here: param.trigger on a dynamic parameter (it re-announces the current value; what inspection shows afterwards is not
             # specified, but reads stay a function of the time, on this and on every other instance)
             ops = [['jump', 0], ['jump', 2], ['inc'], ['read', 0, 'a'], ['read', 1, 'a'], ['read', 0, 'b'], ['read', 0, 'c'], ['trigger', 0, 'a']]
-            if model['time'] > 0:
+            if model['time'] > -1:          # (down to -1: a legitimate time like any other)
                 ops.append(['dec'])
             return ops
         ops = [['jump', 0], ['jump', 2], ['inc'], ['read', 0, 'a'], ['read', 1, 'a'], ['read', 0, 'b'], ['read', 0, 'c'], ['read', 1, 'd'], ['read', 0, 'e'], ['read', 0, 'f'],
                ['inspect', 0, 'a'], ['inspect', 1, 'a'], ['push', 0], ['push', 1]]
-        if model['time'] > 0:
+        if model['time'] > -1:          # (down to -1: a legitimate time like any other)
             ops.append(['dec'])
         if len(model['ctx']) < 2:
             ops.append(['open'])
@@ -224,7 +224,11 @@ class C19(Harness):
             if not vs:
                 for i in (0, 1):
                     for pn in ('a', 'b', 'c'):
-                        v = getattr(w['i'][i], pn)
+                        try:
+                            v = getattr(w['i'][i], pn)
+                        except Exception as e:
+                            vs.append(V('read-raises', 'history %r then reading %s of instance %d at time %r raised %r' % (history, pn, i, model['time'], e), gen=pn, exc=type(e).__name__))
+                            break
                         key = (GENS[pn], model['time'], model['gseed'])
                         if key in model['table'] and model['table'][key] != v:
                             vs.append(V('pure-function-of-time', 'history %r then reading %s of instance %d at time %r gave %r; first produced value for that name/seed/time: %r' % (
